@@ -18,7 +18,7 @@ type c12 struct{ base }
 
 func init() {
 	runner.Register(&c12{base{id: "C12", level: "exploration",
-		rule: "numeral pool built to separate float64, text and decimal semantics (2^53+-1, 0.1/0.2/0.3, 38-digit integers differing in the last digit, 9 / 9.5 / 10, -0 / 0, 1E-130, 9.9E125, one value in five notations). Exhaustive over ALL ordered pairs of the pool: the six comparators, BETWEEN, IN, contains(NS,:n) through interpreter.Language.Match; SET a = a + :v, a - :v, ADD a :v through Language.Update (result compared by value with the exact decimal sum when it fits 38 digits); bystander number attributes and NS members of every update; through both adapters: key identity (Put under one notation, Get/Update/Delete under another), Query order on N- and B-typed sort keys (by value / by bytes). A deviation that is exactly what IEEE-754 double arithmetic (or text ordering of keys) produces is reported under the rule of that listed finding; any other deviation is a new violation. non-trivial = the two numerals differ in text; distinct by (rule, numeral pair).",
+		rule: "numeral pool built to separate float64, text and decimal semantics (2^53+-1, 0.1/0.2/0.3, 38-digit integers differing in the last digit, 9 / 9.5 / 10, -0 / 0, 1E-130, 9.9E125, one value in five notations). Exhaustive over ALL ordered pairs of the pool: the six comparators, BETWEEN, IN, contains(NS,:n) through interpreter.Language.Match; SET a = a + :v, a - :v, ADD a :v through Language.Update (result compared by value with the exact decimal sum when it fits 38 digits); bystander number attributes and NS members of every update; through both adapters: key identity (Put under one notation, Get/Update/Delete under another), Query order on N- and B-typed sort keys (by value / by bytes). A deviation that is exactly what IEEE-754 double arithmetic (or text ordering of keys) produces is reported under the rule of that listed finding; any other deviation is a new violation. non-trivial = the two numerals differ in text; distinct by (rule, numeral pair). Documents holding the numbers as operands of contains() / IN (five forms per pair); byte ranges (BETWEEN) over binary sort keys as key condition and filter.",
 		assumptions: commonAssumptions}})
 }
 
